@@ -54,7 +54,11 @@ def _case(draw) -> dict:
     times = sorted(set(draw(st.lists(gm.time_value, min_size=nrows, max_size=nrows))))
     tc = [[tt, draw(gm.state_for(spec))] for tt in times]
     flags = {f: draw(st.booleans()) for f in FLAGS}
-    return {"spec": spec, "state": state, "time": t, "tc": tc, "flags": flags}
+    from vlib.spec import decls_of
+
+    plain = [n for n, p in decls_of(spec, "parameter") if "ia" not in p]
+    updates = {n: draw(gm.value) for n in plain if draw(st.integers(0, 2)) == 0}
+    return {"spec": spec, "state": state, "time": t, "tc": tc, "flags": flags, "param_updates": updates}
 
 
 def strategy(tier: str):
@@ -248,6 +252,49 @@ def examine(case: dict, ctx) -> Outcome:
                             break
                     if done:
                         break
+    # 7 the same model after its parameter values were changed through the public API (the tables
+    #   built for the first queries must not survive): all forms again, against a reference of the new values
+    upd = case.get("param_updates") or {}
+    if upd:
+        import copy
+
+        spec2 = copy.deepcopy(spec)
+        for d in spec2["decls"]:
+            if d[0] == "parameter" and d[1] in upd:
+                d[2]["value"] = upd[d[1]]
+        ref2 = Ref(spec2)
+        out.classes.append("parameters_updated_after_queries")
+        try:
+            m.update_parameters(dict(upd))
+        except Exception as e:  # noqa: BLE001
+            out.bad(f"raises:update_parameters:{type(e).__name__}", error=repr(e)[:200])
+            return out
+        exp2, scale2 = ref2.rhs(state, t)
+        expa2 = ref2.evaluate(state, t)
+        r = guard("call-after-update", lambda: m(t, y))
+        if r is not None:
+            for v, got in zip(vnames, r):
+                if not close(got, exp2[v], scale2[v]):
+                    out.bad("after-parameter-update:call:value", var=v, got=got, want=exp2[v], updated=sorted(upd))
+                    break
+        a = guard("get_args-after-update", lambda: m.get_args(dict(state), t))
+        if a is not None:
+            for n in a.index:
+                if n != "time" and not close(a[n], expa2[n]):
+                    out.bad("after-parameter-update:args:value", name=n, got=float(a[n]), want=expa2[n], updated=sorted(upd))
+                    break
+        N2 = guard("get_stoichiometries-after-update", lambda: m.get_stoichiometries(dict(state), t))
+        if N2 is not None:
+            st2 = ref2.stoich_terms(state, t)
+            done = False
+            for v in N2.index:
+                for f in N2.columns:
+                    if not close(float(N2.loc[v, f]), st2.get(v, {}).get(f, 0.0)):
+                        out.bad("after-parameter-update:stoich:coefficient", var=v, flux=f, got=float(N2.loc[v, f]), want=st2.get(v, {}).get(f, 0.0))
+                        done = True
+                        break
+                if done:
+                    break
     return out
 
 
